@@ -10,18 +10,21 @@ CLAIM = {
           'sequence of startElement/characters/literal/comment/endElement/xmlSpacePreserve calls that forms one document '
           'element, closed by __exit__, is accepted by the recogniser; xhtml_stream_wellformed the same for XhtmlStream), '
           'element_decodes (an element with any attribute dictionary and any text is decoded to exactly that name, those '
-          'attribute values and that text), encode_illegal_ref and comment_double_hyphen_illformed (negation witnesses for '
-          'the known findings F13 and F20), rle_xml_roundtrip (the datum/stride/repeat attributes of xml_rle_write expand '
+          'attribute values and that text), comment_wellformed (whatever string is passed to comment(), the comment written '
+          'is legal), encode_illegal_ref (negation witness for the known finding F13-xml-illegal-char-reference), '
+          'rle_xml_roundtrip (the datum/stride/repeat attributes of xml_rle_write expand '
           'to the integer list that was run-length encoded). Proof is the right level for the writer core: the claim is '
           'about all strings and all nestings. The large producers (RP66V1 XML index, ScanHTML, LASToHTML, LisToHtml, SVG) '
           'are exercised end to end with an oracle only: partial.'),
  'note': ('Trusted: Lean kernel; the hand-written recogniser is a sound, deliberately incomplete XML 1.0 parser tied to '
           'lxml(libxml2) and xml.dom.minidom(expat) by comparing accept/reject and the reported events on every generated '
           'and mutated document of the run; the model is tied to XmlWrite.py by text-identical output on every generated '
-          'call sequence. F13/F20 are open known findings. Float X axes of the RLE index are oracle-only.'),
+          'call sequence. F13-xml-illegal-char-reference is an open known finding (F20 was repaired: a recurrence is a violation). Float X axes of the RLE index are oracle-only.'),
  'technique': 'Lean 4 proof (simulation of a character-level XML recogniser by the writer automaton, induction over the call list; decide for the witnesses) + model-implementation correspondence',
  'design_ref': 'DESIGN.md section 6 C18',
 }
+
+ANCHOR_FILES = ['src/TotalDepth/util/XmlWrite.py', 'src/TotalDepth/RP66V1/IndexXML.py', 'src/TotalDepth/common/Rle.py']
 
 RULE = ('xmlenc: every single code point in U+0000..U+02FF plus all Char-production boundaries, plus random strings mixed '
         'from classes (markup, quotes, whitespace, C0 controls, DEL/C1, Latin-1, BMP, non-characters, astral, lone '
@@ -435,7 +438,10 @@ def expected_events(kind, ops):
                 if i + 1 < len(parts):
                     ev.append(('start', 'br', ())); ev.append(('end', 'br'))
         elif t == 'm':
-            ev.append(('comment', impl_encode(o[1])))     # comment text is not entity-decoded: not "data" of the property
+            # comment text is not entity-decoded by a parser (not "data" of the property); '--' and a final '-' cannot
+            # be carried by any comment: a blank after each '-' that is followed by '-' / that ends the text
+            c = re.sub('-(?=-)', '- ', impl_encode(o[1]))
+            ev.append(('comment', c + ' ' if c.endswith('-') else c))
         elif t == 'p':
             enc = impl_encode(o[1])
             m = re.match(r'^(\S*)\s*(.*)$', enc, re.S)
